@@ -74,6 +74,28 @@ def check_runs(ctx, binary, runs, tag):
         ctx.sample({"source": tag, "args": runs[len(runs) // 2]})
 
 
+def native_stress(ctx):
+    """Really parallel threads (no scheduler, no hook): lost count updates show as an early or a missing destruction."""
+    binary = vlib.build("stress_rc", ["conc/stress_rc.cpp"], [x for x in SRCS], libs=["-lpthread"], no_guard=True)
+    trace = os.path.join(ctx.work, "stress.ndjson")
+    nt, iters, rounds = (4, 60000, 4) if ctx.quick else (8, 400000, 12)
+    rc, out = vlib.sh(["timeout", "600", binary, trace, str(nt), str(iters), str(rounds)], timeout=660)
+    if rc != 0:
+        rp = ctx.save_replay("stress.args", ["stress %d %d %d" % (nt, iters, rounds)])
+        ctx.report("RefCount.nativeStress:" + ("asan" if "AddressSanitizer" in out else "crash"), rp, "native stress run failed (rc %s)\n%s" % (rc, out[-1500:]))
+        return
+    r, mism, done = vlib.validate_trace(SPECDIR, "RefHandlesTrace", "RefHandlesTrace.cfg", trace)
+    ctx.add_tlc("trace:stress", r, must_pass=False)
+    if r.violation or (not done and not r.broken):
+        ctx.broken.append("trace validation of the native stress run failed: %s" % ((r.violation or "incomplete")[:600]))
+    for line, why in mism:
+        rp = ctx.save_replay("stress.args", ["stress %d %d %d" % (nt, iters, rounds)])
+        ctx.report("RefCount.nativeStress:layer1", rp, "native stress: object not destroyed exactly once after its last handle (trace line %d)" % line)
+    ctx.traces += rounds
+    ctx.evaluations += nt * iters * rounds
+    ctx.notes["native_stress"] = {"threads": nt, "iterations": iters, "rounds": rounds}
+
+
 def rand_progs(rng):
     kind = rng.choice(["string", "variant", "ptr", "string", "variant", "ptr", "varr", "vlist", "vmap", "xtext", "xelem"])
     n = rng.randint(2, 4)
@@ -102,6 +124,7 @@ def apalache_inductive(ctx):
 def run(ctx):
     binary = build()
     apalache_inductive(ctx)
+    native_stress(ctx)
     for n in sorted(SCENARIOS):
         kind, pk = SCENARIOS[n][:2]
         dot = os.path.join(ctx.work, n + ".dot")
